@@ -55,3 +55,25 @@ reg("C09", "exploration",
     "classes (each magic byte, every version != 3, every unknown enum code, every truncation 0..126)",
     require={"any": {"stored_values_swept": 1000000, "degree_headers": 10000, "rejections_ok": 1000, "detail_checks": 1000}},
     exhaustive_key="stored_sweep_exhaustive")
+
+
+def c08_phases(tier):
+    ph = [{"name": "checked", "profile": "checked", "mem_gib": 12, "timeout_s": 900 if tier == "quick" else 7200}]
+    return ph
+
+
+reg("C08", "exploration",
+    "cases = byte strings fed to Header/Directory/PMTiles readers (sync+async), then lookups, partial opens, read_directories and "
+    "a re-write on whatever opened: (a) crafted corpus, >=1 archive per hazard class x 4 codecs; (b) every prefix and every "
+    "single-byte boundary substitution {00,01,7f,80,ff,+1,-1} of small valid archives (exhaustive); (c) structure-aware "
+    "mutations of valid archives in all codecs (header fields / raw varint columns / counts -> boundary values, pointer "
+    "retargeting incl. cycles, stream corruption, wrong codec, stale headers, truncation), splices and bursts. Distinct by "
+    "fingerprint of the input bytes; all hostile inputs are non-trivial. Inputs whose directories expand past 2e6 tiles / 1e5 "
+    "directory visits (lenient estimator mirroring the library's decoding) are outside the claim and only counted.",
+    require={"any": {"open.ok": 500, "open.err": 5000, "rewrite.ok": 100, "lookup.ok": 1000, "inputs_with_pointer_cycle": 10,
+                     "class.entry-count.inputs": 16, "class.self-pointer.inputs": 4, "class.pointer-chain.inputs": 20,
+                     "class.prefix.inputs": 500, "class.substitution.inputs": 3000, "open_async.returned": 1000}},
+    phases=c08_phases,
+    assumptions=["worker address space limited to 12 GiB (a legitimately declared 4 GiB tile buffer is not an absurd allocation; "
+                 "2^40 pre-allocated entries are)", "8 MiB stack", "'returns' is decided on logical stream operations "
+                 "(64*(len+4096)+2e6 budget), wall-clock is only an inconclusive watchdog"])
